@@ -95,12 +95,8 @@ class AddressType(StringType, prim='address'):
         return f'{self.value[:6]}…{self.value[-3:]}'
 
     def __lt__(self, other: 'AddressType') -> bool:  # type: ignore
-        if is_pkh(self.value) and is_kt(other.value):
-            return True
-        elif is_kt(self.value) and is_pkh(other.value):
-            return False
-        else:
-            return self.value < other.value
+        # Tezos orders addresses by their binary form (implicit < originated < rollups), then by entrypoint
+        return forge_contract(self.value) < forge_contract(other.value)
 
     @classmethod
     def dummy(cls, context: AbstractContext) -> 'AddressType':
